@@ -30,6 +30,7 @@ type ReplayInfo struct {
 	ResTypes []types.Type
 	Specs    map[string]*SpecFunc
 	PoolPath string // import path of the buffer pool package when the package under test uses it
+	Ensures     []*Clause         // every ensures clause of the function (split into conjuncts)
 	EntryScript string            // SMT script of the function-entry context (type invariants + requires)
 	Imports     map[string]string // package name -> import path, as seen from the package under test
 }
@@ -65,6 +66,13 @@ func (fr *Frame) buildReplayInfo(fc *FuncContract) *ReplayInfo {
 	}
 	for i := 0; i < fn.Signature.Results().Len(); i++ {
 		ri.ResTypes = append(ri.ResTypes, fn.Signature.Results().At(i).Type())
+	}
+	for _, e := range fc.Ensures {
+		for _, p := range SplitConj(e.E) {
+			ce := *e
+			ce.E, ce.Text = p, ExprString(p)
+			ri.Ensures = append(ri.Ensures, &ce)
+		}
 	}
 	st := fr.entry
 	byteHeap := func() Term { return fr.heap(st, elemHeap(types.Typ[types.Uint8], ""), byteHeapSort) }
@@ -376,13 +384,26 @@ func genReplayTest(ri *ReplayInfo, o *Obligation, vals map[string]string) (strin
 	for _, p := range ri.Params {
 		tr.paramNames[p.Name] = true
 	}
-	clauseGo := ""
+	type chk struct{ goSrc, text string }
+	var checks []chk
 	if o.Kind == "ensures" && o.ClauseExpr != nil {
 		g, err := tr.expr(o.ClauseExpr)
 		if err != nil {
 			return "", "", fmt.Errorf("cannot translate clause to Go: %v", err)
 		}
-		clauseGo = g
+		checks = append(checks, chk{g, o.Clause})
+	} else if strings.HasPrefix(o.Kind, "inv-") || o.Kind == "decreases" || o.Kind == "loop-frame" {
+		// a loop obligation failed: the inputs are a candidate; evaluate every postcondition
+		// of the function that can be rendered in Go
+		for _, e := range ri.Ensures {
+			npre := len(tr.pre)
+			g, err := tr.expr(e.E)
+			if err != nil {
+				tr.pre = tr.pre[:npre]
+				continue
+			}
+			checks = append(checks, chk{g, e.Text})
+		}
 	}
 	call := ri.FuncName + "(" + strings.Join(args, ", ") + ")"
 	if recvExpr != "" {
@@ -424,8 +445,8 @@ func genReplayTest(ri *ReplayInfo, o *Obligation, vals map[string]string) (strin
 	} else {
 		fmt.Fprintf(&sb, "\t%s\n", call)
 	}
-	if clauseGo != "" {
-		fmt.Fprintf(&sb, "\tif !(%s) {\n\t\tt.Fatalf(\"GOVC-REPLAY CLAUSE VIOLATED: %%s\", %s)\n\t}\n", clauseGo, strconv.Quote(o.Clause))
+	for _, c := range checks {
+		fmt.Fprintf(&sb, "\tif !(%s) {\n\t\tt.Fatalf(\"GOVC-REPLAY CLAUSE VIOLATED: %%s\", %s)\n\t}\n", c.goSrc, strconv.Quote(c.text))
 	}
 	sb.WriteString("}\n")
 	return sb.String(), strings.TrimSpace(desc.String()), nil
